@@ -11,7 +11,7 @@ MODULES = {
     'C01': 'c01_prismcore', 'C03': 'c03_hardcore', 'C04': 'c04_invariance', 'C05': 'c05_calculate',
     'C06': 'c06_history', 'C07': 'c07_domain', 'C08': 'c08_transform', 'C09': 'c09_closures',
     'C10': 'c10_potentials', 'C11': 'c11_omega', 'C12': 'c12_omegasource', 'C13': 'c13_matrixarray',
-    'C14': 'c14_tables', 'C15': 'c15_densdiam', 'C16': 'c16_snapshot', 'C17': 'c17_units',
+    'C14': 'c14_tables', 'C15': 'c15_densdiam', 'C16': 'c16_snapshot', 'C17': 'c17_units', 'C18': 'c18_debyer',
 }
 
 
